@@ -100,14 +100,35 @@ def registry_undo_rules(fx, res, classes=None):
         res.bad(r, 'popScope-callback', fx.loc(ps), 'TermNames::popScope no longer undoes names through eraseTermName')
     by_value = by_value_locals(fx, et)
 
+    # removal by position is right only at the end where tryInsert puts a new name (names of a term are erased in reverse order of insertion)
+    ti_ = fx.func('opensmt::TermNames::tryInsert')
+    ins_end = set()
+    for n in fwalk(ti_):
+        if n.get('k') == 'call' and n.get('recv') is not None and mname(n) in ('push_back', 'emplace_back'):
+            ins_end.add('back')
+        if n.get('k') == 'call' and n.get('recv') is not None and (mname(n) == 'push_front' or (mname(n) in ('insert', 'emplace') and n.get('a') and is_call(see_through(n['a'][0]), 'begin'))):
+            ins_end.add('front')
+
     def vec_erase(n):
         # the erased vector must be storage of the registry: an access path into termToNames or a reference/pointer local, never a by-value copy
         rp = recv_path(n)
-        return is_call(n, 'erase') and rp not in ('this.nameToTerm', 'this.termToNames') and (rp or '').split('.')[0].split('[')[0] not in by_value
+        if rp in ('this.nameToTerm', 'this.termToNames') or (rp or '').split('.')[0].split('[')[0] in by_value:
+            return False
+        if is_call(n, 'erase'):
+            a0 = see_through(n['a'][0]) if n.get('a') else None
+            if isinstance(a0, dict) and is_call(a0, 'begin'):
+                return ins_end == {'front'}             # erase(begin()) removes the first name
+            return True                                 # erase(find(...)): by value
+        if is_call(n, 'pop_back'):
+            return ins_end == {'back'}
+        if is_call(n, 'pop_front'):
+            return ins_end == {'front'}
+        return False
     exits, eng = must_call(et, {'n2t': lambda n: is_call(n, 'erase', 'this.nameToTerm'), 'vec': vec_erase})
     bad = [nd for k, nd, st in exits if k == 'return' and ret_value(nd) is True and not {'n2t', 'vec'} <= st]
     if bad:
-        res.bad(r, 'eraseTermName-partial', fx.loc(et), 'eraseTermName can report success without erasing from both nameToTerm and the per-term name vector')
+        res.bad(r, 'eraseTermName-partial', fx.loc(et), 'eraseTermName can report success without erasing the name from both nameToTerm and the per-term name vector (a removal by position '
+                'counts only at the end where tryInsert puts a new name: %s)' % (sorted(ins_end) or 'unknown'))
     else:
         res.ok(r, 'eraseTermName erases from nameToTerm and the name vector before returning true')
     dp = fx.func('opensmt::DefinedFunctions::popScope')
@@ -143,8 +164,10 @@ def run(src, tier, seed):
     r = res.rule('insert-registers', 'a successful TermNames::tryInsert writes nameToTerm, termToNames and the scope log on every path returning true; '
                  'DefinedFunctions::insert writes the map and, exactly under `scoped`, the scope log', floor=4)
     ti = fx.func('opensmt::TermNames::tryInsert')
+    from undo_cover import aliases, member_of
+    al_ti = aliases(ti)
     reqs = {'nameToTerm': lambda n: n.get('k') == 'call' and mname(n) in KEY_CREATE and recv_path(n) == 'this.nameToTerm',
-            'termToNames': lambda n: n.get('k') == 'call' and mname(n) in ('push_back', 'emplace_back') and (path_of(n.get('recv')) or '').startswith('this.termToNames'),
+            'termToNames': lambda n: n.get('k') == 'call' and mname(n) in ('push_back', 'emplace_back', 'insert', 'emplace', 'push_front') and member_of(path_of(n.get('recv')), al_ti) == 'termToNames',
             'scopeLog': lambda n: is_call(n, 'push', 'this.scopedNamesAndTerms')}
     exits, eng = must_call(ti, reqs)
     succ = [(k, nd, st) for k, nd, st in exits if k == 'return' and ret_value(nd) is not False]
